@@ -304,7 +304,7 @@ class TreeSim(taps.Sim):
                 self.violation("c05_underfill", "fractional allocate(%r) traded q=%r costing %r != amount (price=%r mult=%r pos=%r comm=%s)" % (amount, q, c, price, mult, pos0, self.cfg["comm"]), flags)
         if abs((cap1 - cap0) + c) > 1e-9 * (abs(c) + abs(cap0) + 1):
             self.violation("c05_cash", "parent cash moved by %r, cost of the trade is %r" % (cap1 - cap0, c), flags)
-        if self.comm_booked - booked0 != (1 if q != 0 else 0):
+        if getattr(self, "commfn", None) is not None and self.comm_booked - booked0 != (1 if q != 0 else 0):
             self.violation("c05_probe_booked", "%d commission evaluations booked for one allocate (q=%r)" % (self.comm_booked - booked0, q), flags)
         return r
 
